@@ -196,6 +196,10 @@ func OwnLayers(n *gen.Node) []Layer {
 		l := libL("contexttags", "withContext")
 		l.Tags = [][2]string{{S[0], S[1]}, {"n", fmt.Sprint(n.N[0])}}
 		out = []Layer{l}
+	case "tagsafe":
+		l := libL("contexttags", "withContext")
+		l.Tags = [][2]string{{S[0], S[1]}, {"nilv", ""}, {"n", fmt.Sprint(n.N[0])}}
+		out = []Layer{l}
 	case "assertion":
 		out = []Layer{assertL}
 	case "http":
@@ -323,7 +327,7 @@ func Text(n *gen.Node) string {
 		return S[0] + " " + S[1] + ": " + k(0)
 	case "safefmtwrap":
 		return "safe " + S[0] + ": " + k(0)
-	case "withstack", "hint", "detail", "safedetails", "telemetry", "domain", "issuelink", "tags",
+	case "withstack", "hint", "detail", "safedetails", "telemetry", "domain", "issuelink", "tags", "tagsafe",
 		"assertion", "mark", "secondary", "http", "grpc", "pkgstack", "emptywrap", "wrapempty":
 		return k(0)
 	case "newfw":
